@@ -632,7 +632,7 @@ void World::crossCheck(const Op& op) {
 			if (!sameTrace(*A.h, *T.h, !plan.wp.twinLogger, false, &w)) {
 				std::snprintf(b, sizeof b, "identically driven twins diverge during %s at event #%zu: A %s", opName(op.kind), w, w < A.h->trace.size() ? evStr(A.h->trace[w]).c_str() : "(end)");
 				violate("C10.twin", b, iT);
-			} else if (A.obs.alive && (!A.obs.sameConfig(T.obs) || A.obs.prev != T.obs.prev || A.obs.sub != T.obs.sub || A.obs.plans.size() != T.obs.plans.size() ||
+			} else if (A.obs.alive && (!A.obs.sameConfig(T.obs) || A.obs.prev != T.obs.prev || A.obs.sub != T.obs.sub || A.obs.lastTo != T.obs.lastTo || A.obs.queued != T.obs.queued || A.obs.plans.size() != T.obs.plans.size() ||
 			           !std::equal(A.obs.plans.begin(), A.obs.plans.end(), T.obs.plans.begin()) || A.obs.activity != T.obs.activity)) {
 				violate("C10.twin", std::string("identically driven twins give different answers after ") + opName(op.kind), iT);
 			}
@@ -654,7 +654,7 @@ void World::crossCheck(const Op& op) {
 		if (!sameTrace(*A.h, *C.h, false, false, &w)) {
 			std::snprintf(b, sizeof b, "copy does not continue like its original during %s: event #%zu: original %s", opName(op.kind), w, w < A.h->trace.size() ? evStr(A.h->trace[w]).c_str() : "(end)");
 			violate("C10.copy", b, iC, (A.node->caps() & CAP_BUILTIN_RNG) ? "copy_shares_builtin_rng" : "");
-		} else if (!A.obs.sameConfig(C.obs) || A.obs.prev != C.obs.prev) violate("C10.copy", std::string("copy and original answer differently after ") + opName(op.kind), iC, (A.node->caps() & CAP_BUILTIN_RNG) ? "copy_shares_builtin_rng" : "");
+		} else if (!A.obs.sameConfig(C.obs) || A.obs.prev != C.obs.prev || A.obs.lastTo != C.obs.lastTo || A.obs.queued != C.obs.queued || A.obs.plans != C.obs.plans) violate("C10.copy", std::string("copy and original answer differently after ") + opName(op.kind), iC, (A.node->caps() & CAP_BUILTIN_RNG) ? "copy_shares_builtin_rng" : "");
 	}
 	if (iB >= 0 && slots[size_t(iB)].node && slots[size_t(iB)].obs.alive && wants("C15")) {
 		Slot& B = slots[size_t(iB)];
